@@ -38,6 +38,28 @@ func maxUpdateMessageLength(options []*bgp.MarshallingOption) int {
 	return bgp.BGP_MAX_MESSAGE_LENGTH
 }
 
+// pathAttrsLen returns the number of octets the attributes take in an UPDATE
+// sent with the given options. For a peer without the 4-octet AS capability
+// (MarshallingOption.Use2ByteAS) the sender rewrites AS_PATH and AGGREGATOR and
+// appends AS4_PATH and AS4_AGGREGATOR after the message has been packed, so it
+// is the rewritten form that has to fit into the message.
+func pathAttrsLen(attrs []bgp.PathAttributeInterface, options []*bgp.MarshallingOption) int {
+	for _, opt := range options {
+		if opt != nil && opt.Use2ByteAS {
+			msg := &bgp.BGPUpdate{PathAttributes: attrs}
+			UpdatePathAttrs2ByteAs(msg)
+			UpdatePathAggregator2ByteAs(msg)
+			attrs = msg.PathAttributes
+			break
+		}
+	}
+	l := 0
+	for _, attr := range attrs {
+		l += attr.Len()
+	}
+	return l
+}
+
 func UpdatePathAttrs2ByteAs(msg *bgp.BGPUpdate) {
 	ps := msg.PathAttributes
 	msg.PathAttributes = make([]bgp.PathAttributeInterface, len(ps))
@@ -523,10 +545,7 @@ func (p *packerMP) pack(options ...*bgp.MarshallingOption) []*bgp.BGPMessage {
 				}
 			}
 
-			attrsLen := 0
-			for _, attr := range attrsWithoutMPReach {
-				attrsLen += attr.Len()
-			}
+			attrsLen := pathAttrsLen(attrsWithoutMPReach, options)
 
 			baseReachLen := 19 + 2 + 2 + attrsLen
 			nexthops, _ := getMPReachNexthops(paths[0])
@@ -678,10 +697,7 @@ func (p *packerV4) pack(options ...*bgp.MarshallingOption) []*bgp.BGPMessage {
 					attrs_without_mp = append(attrs_without_mp, attr)
 				}
 			}
-			attrsLen := 0
-			for _, a := range attrs_without_mp {
-				attrsLen += a.Len()
-			}
+			attrsLen := pathAttrsLen(attrs_without_mp, options)
 
 			loop(attrsLen, paths, func(nlris []bgp.PathNLRI) {
 				msgs = append(msgs, bgp.NewBGPUpdateMessage(nil, attrs_without_mp, nlris))
